@@ -68,6 +68,8 @@ fn run(name: &str, props: &str, thorough: bool, seed: u64, ctx: &Ctx) {
                 for_all_token_strings(pre, n2, &|s| checks::check_string(ctx, s, props));
             }
         },
+        // SCALE: one component (or one count) grown across the usual implementation thresholds, same per-string oracle as `tokens`
+        "scale" => for_all_scaled_strings(thorough, &|s| checks::check_string(ctx, s, props)),
         "spell" => spell::suite_spell(ctx, thorough, props),
         "faults" => spell::suite_faults(ctx, thorough),
         "segments" => spell::suite_segments(ctx, thorough),
@@ -97,6 +99,7 @@ fn describe(name: &str, thorough: bool) -> (String, String) {
     let t = |q: &str, th: &str| if thorough { th.to_string() } else { q.to_string() };
     match name {
         "tokens" => ("T_N: every concatenation of <= N tokens of the 36-token alphabet".into(), t("N<=4 after 'pkg:t/', N<=3 after 'pkg:npm/', N<=3 alone and after 8 component-opening prefixes", "N<=5 / 4 / 4 / 4")),
+        "scale" => ("SCALE: PURL strings with one component, or the number of segments / qualifiers / checksum entries, grown to each size threshold".into(), t("sizes 1..1025 around powers of two and 23/24", "sizes up to 65537")),
         "spell" => ("S: component tuples x spelling freedoms".into(), t("covering subset of tuples x (each freedom alone + 2 combinations)", "full tuple product x all 576 combinations")),
         "faults" => ("S x every single fault kind x position x spelling of the fault".into(), t("covering tuples x 2 base spellings", "all tuples x 13 base spellings")),
         "segments" => ("all namespace / subpath spellings from 12 pieces".into(), t("<= 4 pieces", "<= 6 pieces")),
